@@ -643,6 +643,24 @@ Proof.
 Qed.
 
 (* ------------------------------------------------------------------ hint queries (hash sharding) *)
+(* the key the hinted read builds from the single tag set (through the write path's own key construction on a pseudo row) is
+   the row's key, or there is no key (no pruning) *)
+Lemma hint_key_agrees : forall c p ts, wf_point p ->
+  (forall k v, In (k, v) ts -> tag_val (p_tags p) k = v) ->
+  (c_sk c = [] -> sort_tags ts = p_tags p) ->
+  wkey c (hint_point (sort_tags ts)) = None \/ wkey c (hint_point (sort_tags ts)) = wkey c p \/ wkey c p = None.
+Proof.
+  intros c p ts Hwp Hsat Hfull. unfold wkey. cbn [p_tags hint_point].
+  destruct (c_sk c) as [|k0 sk0] eqn:Esk.
+  - rewrite (Hfull eq_refl). right; left; reflexivity.
+  - destruct (has_adj_dup (sort_tags ts)); [left; reflexivity|].
+    destruct (has_adj_dup (p_tags p)); [right; right; reflexivity|].
+    destruct (snd (sel_keys (k0 :: sk0) (p_tags p))) eqn:Okp; [|right; right; reflexivity].
+    destruct (sel_keys_agree_proof (k0 :: sk0) (p_tags p) ts Hwp Okp Hsat) as [m [_ Hfullk]].
+    destruct (snd (sel_keys (k0 :: sk0) (sort_tags ts))) eqn:Okt; [|left; reflexivity].
+    right; left. rewrite (Hfullk eq_refl). reflexivity.
+Qed.
+
 Theorem hint_prune_sound_proof : forall v c g cond p s,
   v_or v = true -> (v_and v = true \/ match cond with Some e => parser_image e | None => True end) ->
   c_typ c = Hash -> wf_group c g -> wf_point p ->
@@ -659,15 +677,13 @@ Proof.
   destruct tss as [|ts [|ts2 rest]]; try exact Hall.
   assert (Hok' : v_and v = true \/ parser_image e) by (destruct Hok; auto).
   destruct (cond_tags_sound _ _ p _ _ Hor Hok' Ect Hev) as [ts' [[<-|[]] Hsat]].
-  unfold route_in in Hr. destruct (wkey c p) as [ps|] eqn:Ew; [|discriminate]. rewrite Etyp in Hr.
-  unfold wkey in Ew. destruct (has_adj_dup (p_tags p)); [discriminate|].
-  unfold hash_arg in Hr.
-  destruct (c_sk c) as [|k0 sk0] eqn:Esk.
-  - inversion Ew; subst ps. rewrite (Hfull eq_refl ts eq_refl). rewrite Hr. left; reflexivity.
-  - destruct (snd (sel_keys (k0 :: sk0) (p_tags p))) eqn:Okp; [|discriminate]. inversion Ew; subst ps; clear Ew.
-    destruct (sel_keys_agree_proof (k0 :: sk0) (p_tags p) ts Hwp Okp Hsat) as [m [_ Hfullk]].
-    destruct (snd (sel_keys (k0 :: sk0) (sort_tags ts))) eqn:Okt; [|exact Hall].
-    rewrite (Hfullk eq_refl). rewrite Hr. left; reflexivity.
+  assert (Hf : c_sk c = [] -> sort_tags ts = p_tags p).
+  { intros E. first [exact (Hfull E ts Ect) | exact (Hfull E ts eq_refl)]. }
+  unfold route_in in Hr.
+  destruct (hint_key_agrees c p ts Hwp Hsat Hf) as [Hk|[Hk|Hk]].
+  - rewrite Hk. exact Hall.
+  - rewrite Hk. destruct (wkey c p) as [ps|] eqn:Ew; [|discriminate]. rewrite Etyp in Hr. rewrite Hr. left; reflexivity.
+  - rewrite Hk in Hr. discriminate.
 Qed.
 
 (* ------------------------------------------------------------------ batch caches, key in force *)
